@@ -766,7 +766,42 @@ def _in_handler_after(fn, node, first_send):
     return False
 
 
-SECTIONS = [extract_models, extract_pool, extract_timeouts, extract_schemes, extract_exception_maps, extract_h2]
+# ---------------------------------------------------------------------------------------------
+# C18: the substitution table of scripts/unasync.py
+# ---------------------------------------------------------------------------------------------
+
+def extract_unasync(repo, parents):
+    tree = _parse(repo, "scripts/unasync.py")
+    subs = None
+    compiled = None
+    for node in tree.body:
+        if isinstance(node, ast.Assign) and ast.unparse(node.targets[0]) == "SUBS":
+            subs = ast.literal_eval(node.value)
+        if isinstance(node, ast.Assign) and ast.unparse(node.targets[0]) == "COMPILED_SUBS":
+            compiled = ast.unparse(node.value)
+    if subs is None:
+        raise ExtractError("scripts/unasync.py: SUBS not found")
+    if compiled != "[(re.compile('(^|\\\\b)' + regex + '($|\\\\b)'), repl) for regex, repl in SUBS]":
+        raise ExtractError(f"scripts/unasync.py: COMPILED_SUBS not recognised: {compiled}")
+    fn = _find_func(tree, "unasync_line")
+    if "line = re.sub(regex, repl, line)" not in ast.unparse(fn):
+        raise ExtractError("scripts/unasync.py: unasync_line does not apply re.sub per pattern")
+    rows = []
+    for regex, repl in subs:
+        if regex == "Async([A-Z][A-Za-z0-9_]*)" and repl == "\\2":
+            rows.append(".asyncClass")
+            continue
+        if any(ch in regex for ch in "\\[](){}*+?|^$") or "\\" in repl:
+            raise ExtractError(f"scripts/unasync.py: pattern outside the modelled fragment: {regex!r} -> {repl!r}")
+        rows.append(f".lit {lean_str(regex)}.toList {lean_str(repl)}")
+    out = ["/-- a pattern of `scripts/unasync.py` (`.` in a literal is the regex wildcard) -/",
+           "inductive UPat | lit (src : List Char) (dst : String) | asyncClass",
+           "/-- `SUBS`, in order; each is compiled as `(^|\\b)` + regex + `($|\\b)` and applied with re.sub per line -/",
+           "def unasyncSubs : List UPat := " + lean_list(rows)]
+    return out
+
+
+SECTIONS = [extract_models, extract_pool, extract_timeouts, extract_schemes, extract_exception_maps, extract_h2, extract_unasync]
 
 
 def generate(repo):
